@@ -87,9 +87,9 @@ def handleF : List Sexp → Sexp
         | .boolean b => app "s" [.str (if b then "T" else "F")]
         | .string t => app "s" [.str t]
         | .other _ => .atom "?"
-      let chk : Sexp := match (do let g ← typeCheckWhere lets; fors.forM (fun f => typeCheckFor g f.its f.idx)) with
+      let chk : Sexp := match typeCheckProgram lets fors with
         | .ok _ => app "ok" [] | .error e => app "err" [.atom e.name]
-      let ev : Sexp := match (do let r ← evalWhere lets; mapT (fun (f : TFor Float) => runFor r f.its f.idx) fors) with
+      let ev : Sexp := match runProgram lets fors with
         | .ok ls => app "ok" (ls.map (fun (leaves : List (List (Prim Float))) => .list (leaves.map (fun fr => .list (fr.map frag)))))
         | .error e => app "err" [.atom e.name]
       .list [.atom "check", chk, .atom "eval", ev]
